@@ -18,7 +18,8 @@ import (
 // site is one re-encodable position of an encoded transaction.
 type site struct {
 	Name string // nsigners, allowedcontracts, allowedgroups, rules, condcount, nattrs, scriptlen, nwitnesses, invlen, verlen, bool
-	Min  int    // minimal form of the value at this position (0 one byte, 1 0xfd, 2 0xfe, 3 0xff); bool: 0
+	Val  uint64 // the value at this position
+	Min  int    // form the encoder of the code under test uses for Val (0 one byte, 1 0xfd, 2 0xfe, 3 0xff); bool: 0
 	Bool bool
 }
 
@@ -34,6 +35,8 @@ type enc struct {
 	alt   map[int]int // site index -> form
 }
 
+// minForm is the shortest form of v, which is also what io.PutVarUint writes (0xffff still fits the 0xfd form and
+// 0xffffffff the 0xfe form: the encoder boundary is exercised by scripts of exactly 65535 bytes).
 func minForm(v uint64) int {
 	switch {
 	case v < 0xfd:
@@ -46,6 +49,19 @@ func minForm(v uint64) int {
 	return 3
 }
 
+// fits tells whether v can be written in the given form.
+func fits(v uint64, form int) bool {
+	switch form {
+	case 0:
+		return v < 0xfd
+	case 1:
+		return v <= 0xffff
+	case 2:
+		return v <= 0xffffffff
+	}
+	return true
+}
+
 func (e *enc) u8(b byte)    { e.buf = append(e.buf, b) }
 func (e *enc) u16(v uint16) { e.buf = binary.LittleEndian.AppendUint16(e.buf, v) }
 func (e *enc) u32(v uint32) { e.buf = binary.LittleEndian.AppendUint32(e.buf, v) }
@@ -55,9 +71,9 @@ func (e *enc) raw(b []byte) { e.buf = append(e.buf, b...) }
 func (e *enc) varint(name string, v uint64) {
 	idx := len(e.sites)
 	m := minForm(v)
-	e.sites = append(e.sites, site{Name: name, Min: m})
+	e.sites = append(e.sites, site{Name: name, Val: v, Min: m})
 	form := m
-	if f, ok := e.alt[idx]; ok && f > m {
+	if f, ok := e.alt[idx]; ok && fits(v, f) {
 		form = f
 	}
 	switch form {
@@ -211,10 +227,13 @@ func altFor(sites []site, p encPick, tx *transaction.Transaction) (map[int]int, 
 	if s.Bool {
 		return map[int]int{idx: f}, fmt.Sprintf("%s#%d=0x%02x", s.Name, idx, 1+f), true
 	}
-	if f <= s.Min {
+	if f == s.Min || !fits(s.Val, f) {
 		f = s.Min + 1
+		if s.Min == 3 {
+			f = 2
+		}
 	}
-	if f > 3 {
+	if f > 3 || !fits(s.Val, f) {
 		return nil, "", false
 	}
 	return map[int]int{idx: f}, fmt.Sprintf("%s#%d/form%d", s.Name, idx, f), true
